@@ -505,6 +505,13 @@ def grid2geo(zone, east, north, hemisphere='south', ellipsoid=grs80, prj=utm):
     psf, grid_conv = psfandgridconv(xi1, eta1, lat, long, cm, conf_lat,
                                     ellipsoid, prj)
 
+    # a longitude across the 180 degree meridian from the central meridian (or a
+    # rounding error beyond it) is returned in the range geo2grid accepts
+    if long < -180:
+        long += 360
+    elif long > 180:
+        long -= 360
+
     return (hemisign * round(lat, 11),
             round(long, 11), round(psf, 8),
             hemisign * grid_conv)
